@@ -23,7 +23,19 @@ def check(m, run):
     rs.iv3_cache_keys(m, run, rs.CONCRETE)
     rs.iv4_deepcopy(m, run)
     rs.iv6_reset_complete(m, run)
-    iv5(m, run)
+    # aggregates of a container filled from element state: the box aggregate is decided by read / edit an element / read again on real
+    # containers (CB2) - a cached box that is validated against the current element boxes on every read is not stale-prone; the other
+    # aggregates (evaluated points, vertices, faces) stay with IV5
+    from .. import skel_drivers as _sd0
+    from ..model import AnalysisError as _AE
+    n_cb = len(run.obs)
+    try:
+        _sd0.cb2(m, run)
+    except _AE as ex:
+        run.error(str(ex))
+    cb_ok = len(run.obs) > n_cb and all(o.ok for o in run.obs[n_cb:])
+    with run.corroborating(cb_ok, 'CB2', rules=(), only=lambda o: o.rule.startswith('IV5') and 'box' in o.key):
+        iv5(m, run)
     iv7(m, run)
     # a plain evaluate() re-evaluates the whole domain whatever points are stored (they may come from a sub-range)
     from .. import skel_drivers as _sd
